@@ -24,10 +24,12 @@ pub struct TcpConn {
     pub down: Vec<usize>,
     pub up_gap_ms: u64,
     pub down_gap_ms: u64,
-    /// 0 = send, half-close, read to EOF; 1 = send, read exactly what is expected, close; 2 = read to EOF first, then send, half-close
+    /// 0 = send, half-close, read to EOF; 1 = send, read exactly what is expected, close; 2 = read to EOF first, then send, half-close;
+    /// 3 = send, half-close, read `early_k` bytes of the answer, close; 4 = eager: entry-point messages, upload and half-close in one go, then read the replies and the answer to EOF
     pub client_end: u8,
     /// 0 = full duplex, close after the client's EOF; 1 = send, half-close first, keep reading to EOF;
-    /// 2 = close early after `early_k` bytes; 3 = refuse (nobody listens); 4 = read everything, never answer, never close
+    /// 2 = close early after `early_k` bytes; 3 = refuse (nobody listens); 4 = read everything, never answer, never close;
+    /// 5 = answer, half-close, never read, close later; 6 = read the request to its end, then stream a long answer
     pub target_mode: u8,
     pub early_k: usize,
     /// the target starts reading only after this delay (back-pressure through the whole tunnel)
@@ -53,6 +55,10 @@ pub struct UdpClient {
     /// SOCKS5 associations only: exchange k goes to the IPv6 twin of its target ([::1], port 9200 + t)
     #[serde(default)]
     pub v6: Vec<bool>,
+    /// UDP remotes bound to the wildcard address only: this client reaches the remote through the
+    /// host's secondary local address (127.0.0.2) instead of the primary one
+    #[serde(default)]
+    pub alt_local: bool,
 }
 #[derive(Serialize, Deserialize, Clone, Debug)]
 pub struct C01Plan {
@@ -63,6 +69,15 @@ pub struct C01Plan {
     /// extra fixed-target TCP remotes nobody ever connects to (their listeners just sit there)
     #[serde(default)]
     pub idle_remotes: usize,
+    /// the client's keepalive (interval, timeout) in ms, timed on the simulated clock (guarded
+    /// hook); only drawn for networks without latency, where a Ping cannot be held up behind
+    /// data in transit for longer than the timeout
+    #[serde(default)]
+    pub keepalive_ms: [u64; 2],
+    /// the UDP remotes are given without a local host (`7100:127.0.0.1:9100/udp`, the form of the
+    /// README's example): they bind the wildcard address
+    #[serde(default)]
+    pub udp_wildcard: bool,
 }
 
 #[derive(Default, Debug, Clone)]
@@ -147,9 +162,9 @@ async fn read_until_crlfcrlf<R: AsyncRead + Unpin>(r: &mut R) -> Result<Vec<u8>,
     Ok(got)
 }
 
-/// entry-point handshake of a local client, written from RFC 1928 / SOCKS4(a) / RFC 7231 CONNECT
-async fn entry_handshake<S: AsyncRead + AsyncWrite + Unpin>(s: &mut S, entry: u8, port: u16) -> Result<(), String> {
-    let e = |x: std::io::Error| x.to_string();
+/// the messages a local client sends to its entry point, in order (written from RFC 1928 /
+/// SOCKS4(a) / RFC 7231 CONNECT); each is answered by one reply
+fn entry_messages(entry: u8, port: u16) -> Vec<Vec<u8>> {
     match entry {
         2 | 3 => {
             let mut req = vec![4u8, 1];
@@ -162,21 +177,9 @@ async fn entry_handshake<S: AsyncRead + AsyncWrite + Unpin>(s: &mut S, entry: u8
                 req.extend(b"\0");
                 req.extend(b"target.sim\0");
             }
-            s.write_all(&req).await.map_err(e)?;
-            let mut rep = [0u8; 8];
-            s.read_exact(&mut rep).await.map_err(|x| format!("SOCKS4 reply: {x}"))?;
-            if rep[0] != 0 || rep[1] != 90 {
-                return Err(format!("SOCKS4 reply {rep:?} is not `request granted`"));
-            }
-            Ok(())
+            vec![req]
         }
         4..=6 | 9 => {
-            s.write_all(&[5, 1, 0]).await.map_err(e)?;
-            let mut m = [0u8; 2];
-            s.read_exact(&mut m).await.map_err(|x| format!("SOCKS5 method reply: {x}"))?;
-            if m != [5, 0] {
-                return Err(format!("SOCKS5 method selection {m:?}"));
-            }
             let mut req = vec![5u8, 1, 0];
             match entry {
                 4 => {
@@ -200,7 +203,36 @@ async fn entry_handshake<S: AsyncRead + AsyncWrite + Unpin>(s: &mut S, entry: u8
                 }
             }
             req.extend(port.to_be_bytes());
-            s.write_all(&req).await.map_err(e)?;
+            vec![vec![5, 1, 0], req]
+        }
+        7 | 8 => {
+            let host = if entry == 8 { "[::1]" } else { "target.sim" };
+            vec![format!("CONNECT {host}:{port} HTTP/1.1\r\nHost: {host}:{port}\r\n\r\n").into_bytes()]
+        }
+        _ => vec![],
+    }
+}
+/// read the entry point's reply to message `k` of `entry_messages`
+async fn entry_reply<S: AsyncRead + Unpin>(s: &mut S, entry: u8, k: usize) -> Result<(), String> {
+    let e = |x: std::io::Error| x.to_string();
+    match entry {
+        2 | 3 => {
+            let mut rep = [0u8; 8];
+            s.read_exact(&mut rep).await.map_err(|x| format!("SOCKS4 reply: {x}"))?;
+            if rep[0] != 0 || rep[1] != 90 {
+                return Err(format!("SOCKS4 reply {rep:?} is not `request granted`"));
+            }
+            Ok(())
+        }
+        4..=6 | 9 if k == 0 => {
+            let mut m = [0u8; 2];
+            s.read_exact(&mut m).await.map_err(|x| format!("SOCKS5 method reply: {x}"))?;
+            if m != [5, 0] {
+                return Err(format!("SOCKS5 method selection {m:?}"));
+            }
+            Ok(())
+        }
+        4..=6 | 9 => {
             let mut h = [0u8; 4];
             s.read_exact(&mut h).await.map_err(|x| format!("SOCKS5 reply: {x}"))?;
             if h[0] != 5 || h[2] != 0 {
@@ -224,9 +256,6 @@ async fn entry_handshake<S: AsyncRead + AsyncWrite + Unpin>(s: &mut S, entry: u8
             Ok(())
         }
         7 | 8 => {
-            let host = if entry == 8 { "[::1]" } else { "target.sim" };
-            let req = format!("CONNECT {host}:{port} HTTP/1.1\r\nHost: {host}:{port}\r\n\r\n");
-            s.write_all(req.as_bytes()).await.map_err(e)?;
             let head = read_until_crlfcrlf(s).await?;
             let line = String::from_utf8_lossy(&head);
             if !line.starts_with("HTTP/1.1 200") {
@@ -237,9 +266,62 @@ async fn entry_handshake<S: AsyncRead + AsyncWrite + Unpin>(s: &mut S, entry: u8
         _ => Ok(()),
     }
 }
+/// entry-point handshake of a local client: one message, one reply, in turn
+async fn entry_handshake<S: AsyncRead + AsyncWrite + Unpin>(s: &mut S, entry: u8, port: u16) -> Result<(), String> {
+    for (k, m) in entry_messages(entry, port).into_iter().enumerate() {
+        s.write_all(&m).await.map_err(|x| x.to_string())?;
+        entry_reply(s, entry, k).await?;
+    }
+    Ok(())
+}
 
 async fn local_client<S: AsyncRead + AsyncWrite + Unpin>(mut s: S, i: usize, c: TcpConn, res: Rc<RefCell<Vec<ConnRes>>>) {
     let port = 10_000 + i as u16;
+    if c.client_end == 4 {
+        // an eager client: the entry-point messages, the whole upload and the half-close leave at
+        // once, before any reply has been read (`printf 'CONNECT ...' | nc -N`); then the replies
+        // and the answer to its end
+        let msgs = entry_messages(c.entry, port);
+        let mut all: Vec<u8> = msgs.concat();
+        let mut off = 0u64;
+        for n in &c.up {
+            all.extend((0..*n as u64).map(|j| pbyte(i, 0, off + j)));
+            off += *n as u64;
+        }
+        // (sending and receiving go on side by side, as in `nc`: a client that reads nothing until
+        // it has written everything dead-locks against a target that answers first, tunnel or not)
+        let (mut rd, mut wr) = tokio::io::split(s);
+        let sender = async {
+            let r = wr.write_all(&all).await.map_err(|x| format!("write: {x}"));
+            wr.shutdown().await.ok();
+            r
+        };
+        let nmsgs = msgs.len();
+        let entry = c.entry;
+        let receiver = async {
+            for k in 0..nmsgs {
+                entry_reply(&mut rd, entry, k).await?;
+            }
+            Ok::<_, String>(recv_pattern(&mut rd, i, 1, usize::MAX).await)
+        };
+        let (w, got) = tokio::join!(sender, receiver);
+        let mut r = res.borrow_mut();
+        match got {
+            Err(e) => {
+                r[i].handshake = Some(e);
+                r[i].client_done = Some("handshake failed".into());
+            }
+            Ok((n, ok, eof, err)) => {
+                r[i].handshake = Some("ok".into());
+                r[i].client_rx = n;
+                r[i].client_rx_ok = ok;
+                r[i].client_eof = eof;
+                r[i].client_err = err;
+                r[i].client_done = Some(format!("eager: sent {off} bytes with the request: {w:?}"));
+            }
+        }
+        return;
+    }
     if let Err(e) = entry_handshake(&mut s, c.entry, port).await {
         res.borrow_mut()[i].handshake = Some(e);
         res.borrow_mut()[i].client_done = Some("handshake failed".into());
@@ -263,6 +345,23 @@ async fn local_client<S: AsyncRead + AsyncWrite + Unpin>(mut s: S, i: usize, c: 
             let w = send_pattern(&mut wr, i, 0, &c.up, c.up_gap_ms).await;
             wr.shutdown().await.ok();
             format!("{w:?}")
+        }
+        3 => {
+            // send the request, half-close, read part of the answer, then go away while the target
+            // is still sending: the target must find its connection closed, not block for ever
+            let w = send_pattern(&mut wr, i, 0, &c.up, c.up_gap_ms).await;
+            wr.shutdown().await.ok();
+            let (n, ok, eof, err) = recv_pattern(&mut rd, i, 1, c.early_k.min(want_down / 2)).await;
+            {
+                let mut r = res.borrow_mut();
+                r[i].client_rx = n;
+                r[i].client_rx_ok = ok;
+                r[i].client_eof = eof;
+                r[i].client_err = err;
+            }
+            tokio::time::sleep(ms(c.up_gap_ms)).await;
+            drop((rd, wr));
+            format!("{w:?}, closed after {n} of {want_down} bytes of the answer")
         }
         1 => {
             let w = send_pattern(&mut wr, i, 0, &c.up, c.up_gap_ms).await;
@@ -314,6 +413,20 @@ async fn target_conn(mut s: TcpStream, i: usize, c: TcpConn, res: Rc<RefCell<Vec
             r[i].target_rx_ok = ok;
             r[i].target_eof = eof;
             format!("silent target saw eof={eof} err={err:?}")
+        }
+        6 => {
+            // reads the request to its end, then streams a long answer: the local client will go
+            // away in the middle of it
+            let (mut rd, mut wr) = tokio::io::split(s);
+            let (n, ok, eof, _) = recv_pattern(&mut rd, i, 0, usize::MAX).await;
+            {
+                let mut r = res.borrow_mut();
+                r[i].target_rx = n;
+                r[i].target_rx_ok = ok;
+                r[i].target_eof = eof;
+            }
+            let w = send_pattern(&mut wr, i, 1, &c.down, c.down_gap_ms).await;
+            format!("request read to its end, answer: {w:?}")
         }
         5 => {
             // answers, half-closes, never reads, and closes a while later: the local client, still
@@ -401,7 +514,8 @@ async fn udp_client(ci: usize, c: UdpClient, res: Rc<RefCell<Vec<UdpRes>>>, faul
             }
         }
     } else {
-        SocketAddr::from(([127, 0, 0, 1], 7100 + c.target as u16))
+        // (a wildcard-bound remote is reachable through every local address of the host)
+        SocketAddr::from(([127, 0, 0, if c.alt_local { 2 } else { 1 }], 7100 + c.target as u16))
     };
     let mut buf = vec![0u8; 70_000];
     for (k, n) in c.sizes.iter().enumerate() {
@@ -467,7 +581,7 @@ async fn udp_client(ci: usize, c: UdpClient, res: Rc<RefCell<Vec<UdpRes>>>, faul
                 };
                 let mut r = res.borrow_mut();
                 if from != dest {
-                    r[ci].problems.push(format!("exchange {k}: reply came from {from}, the client sent to {dest}"));
+                    r[ci].problems.push(format!("exchange {k}: reply came from {from}, the client sent to {dest}{}", if c.alt_local && !c.via_socks { " (wildcard-bound UDP remote, secondary local address)" } else { "" }));
                 }
                 match body {
                     Err(e) => r[ci].problems.push(format!("exchange {k}: {e}")),
@@ -564,12 +678,12 @@ pub fn run(plan: &C01Plan, sched: &Sched) -> Outcome {
                     }
                 }
                 for t in 0..plan.n_udp_targets {
-                    remotes.push(format!("127.0.0.1:{}:127.0.0.1:{}/udp", 7100 + t, 9100 + t));
+                    remotes.push(if plan.udp_wildcard { format!("{}:127.0.0.1:{}/udp", 7100 + t, 9100 + t) } else { format!("127.0.0.1:{}:127.0.0.1:{}/udp", 7100 + t, 9100 + t) });
                 }
                 for j in 0..plan.idle_remotes.min(200) {
                     remotes.push(format!("127.0.0.1:{}:127.0.0.1:1", 6000 + j));
                 }
-                let client = spawn_client(&ClientCfg { server: format!("ws://127.0.0.1:{SERVER_PORT}/ws"), remotes, max_retry_count: 3, max_retry_interval: 10_000, handshake_timeout_s: 5, channel_timeout_s: 30, psk: None });
+                let client = spawn_client(&ClientCfg { server: format!("ws://127.0.0.1:{SERVER_PORT}/ws"), remotes, max_retry_count: 3, max_retry_interval: 10_000, handshake_timeout_s: 5, channel_timeout_s: 30, psk: None, keepalive_ms: plan.keepalive_ms });
                 // let the tunnel come up
                 tokio::time::sleep(ms(500)).await;
                 // ---- local clients
@@ -616,6 +730,19 @@ pub fn run(plan: &C01Plan, sched: &Sched) -> Outcome {
                 const CAP: u64 = 4 * 3600;
                 let t_start = now();
                 let mut all = std::pin::pin!(all);
+                // (with the client's keepalive on, Pings keep the tunnel connection itself busy for
+                // ever: such runs have a network without latency, where transfers take no simulated
+                // time, and look at everything but the tunnel connection)
+                let ka = plan.keepalive_ms[0] > 0;
+                let world_digest = move || {
+                    let (d, e) = world_digest();
+                    if ka {
+                        let tunnel: u64 = attempts_to(SERVER_PORT).iter().map(|a| penguin_simnet::with(|w| w.events_by_conn.get(&a.2).copied().unwrap_or(0))).sum();
+                        (d, e - tunnel)
+                    } else {
+                        (d, e)
+                    }
+                };
                 let (mut last_events, mut idle) = (world_digest().1, 0u64);
                 let mut hung = false;
                 loop {
@@ -734,6 +861,18 @@ pub fn run(plan: &C01Plan, sched: &Sched) -> Outcome {
                 // (client_done is set), and whatever arrived is a prefix
                 o.probe("target-refused-or-closed-early", 1);
             }
+            6 => {
+                // the local client went away while the target was sending: a direct connection
+                // would have failed the target's writes; it must not be left blocked for ever
+                if r.target_done.is_none() {
+                    o.violate("C01:tcp-hang", format!("the local client closed its connection while the target was still sending, but the target's connection is still pending at the horizon (its writes block instead of failing); {desc}"));
+                } else if r.target_done.as_deref().is_some_and(|d| d.contains("Err")) {
+                    o.probe("client-closed-while-target-was-sending", 1);
+                }
+                if r.target_rx != up || !r.target_eof {
+                    o.violate("C01:tcp-incomplete", format!("the target received {} of {up} bytes of the request, EOF seen: {}; {desc}", r.target_rx, r.target_eof));
+                }
+            }
             5 => {
                 // (client_done is set: checked above) the uploader was not left hanging
                 o.probe("target-closed-without-reading", 1);
@@ -763,7 +902,7 @@ pub fn run(plan: &C01Plan, sched: &Sched) -> Outcome {
             o.violate("C01:udp-hang", format!("still pending at the horizon; {desc}"));
         }
         for p in &r.problems {
-            let class = if p.contains("no reply") { "C01:udp-lost" } else if p.contains("came from") { "C01:udp-source-address" } else if p.contains("header") || p.contains("RSV") { "C01:udp-socks-header" } else if p.contains("misdelivered") { "C01:udp-misdelivered" } else { "C01:udp-error" };
+            let class = if p.contains("no reply") { "C01:udp-lost" } else if p.contains("came from") && p.contains("wildcard-bound UDP remote") { "C01:udp-source-address:wildcard-remote" } else if p.contains("came from") { "C01:udp-source-address" } else if p.contains("header") || p.contains("RSV") { "C01:udp-socks-header" } else if p.contains("misdelivered") { "C01:udp-misdelivered" } else { "C01:udp-error" };
             o.violate(class, format!("{p}; {desc}"));
         }
         o.probe(if c.via_socks { "udp-via-socks5" } else { "udp-via-remote" }, r.replies_ok as u64);
